@@ -314,6 +314,35 @@ def run(ctx):
             meta.append({"what": "equilibrium through the real driver on %d ranks" % nranks, "rel_change_of_f": dev, "max_abs_phi": pmax})
     finally:
         shutil.rmtree(work, ignore_errors=True)
+    # the pipeline as the driver issues it (one perturbed step on one and on two ranks): density of f into rho, modes of rho, layout
+    # changes, solve for phi from rho, layout changes back, inverse transform of PHI - the quasi-neutrality statements of TimeStep.tla,
+    # operands included, validated by C05Trace; only rejections of quasi-neutrality statements are this property's
+    from harness.checks.c05 import drv as drv05
+    work2 = tempfile.mkdtemp(prefix="c15d_")
+    try:
+        cf2 = scenarios.write_constants(os.path.join(work2, "c.json"), eps=0.05, npts=[6, 8, 8, 8], iotaVal=0.8)
+        for g in ([1, 1], [2, 1]):
+            o = drv05({"work": os.path.join(work2, "w%d" % g[0]), "cfile": cf2, "S": 5, "nprocs": g, "tEnd": scenarios.CONSTANTS["dt"], "folder": "F",
+                       "policy": "random", "seed": 3, "eager": False})
+            tev = [{"k": "start", "grid": "%dx%d" % tuple(g)}] + [{"k": "stmt", "op": st[0], "g": st[1], "to": st[2]} for st in o["stmts"]]
+            rj, _ = ctx.validate_trace("C05Trace", tev, what="driver statements of one perturbed step on %s" % g, consts="CONSTANT MaxSteps = 1000\n",
+                                       init="TInit", nxt="TNext", count=False)
+            QN = ("density", "getModes", "solve", "findPotential")
+            nqn = 0
+            for j, e in enumerate(tev, 1):
+                isqn = e.get("op") in QN or (e.get("op") == "setLayout" and e.get("g") in ("rho", "phi"))
+                nqn += bool(isqn)
+                if isqn:
+                    ctx.count(("driver-qn-statement", tuple(g), j))
+                if j in rj and isqn:
+                    ctx.violation({"kind": "driver-pipeline-statement", "op": e.get("op"), "operand": e.get("g")},
+                                  "the driver's quasi-neutrality pipeline issues %s(%s%s) where the time loop of TimeStep.tla has another statement (%s)" % (
+                                      e.get("op"), e.get("g"), (", " + e["to"]) if e.get("to") else "", rj[j]), {"statement": e, "position": j, "nprocs": g})
+            if not o["ok"] or nqn < 16:
+                ctx.violation({"kind": "driver-pipeline-statement", "op": "run", "operand": ""}, "driver run on %s did not complete its quasi-neutrality pipeline (%d statements): %s" % (
+                    g, nqn, o["fault"][:300]), {"nprocs": g})
+    finally:
+        shutil.rmtree(work2, ignore_errors=True)
     rej, _ = ctx.validate_trace("C15Trace", events, what="pipeline / relation / equilibrium events (%d)" % len(events))
     for j, (e, m) in enumerate(zip(events, meta), 1):
         ctx.count(json.dumps(m, sort_keys=True, default=str))
